@@ -16,9 +16,9 @@ fn valid_p<I: Inp>(i: &mut I) -> f64 {
     p
 }
 
-/// normal double or zero (not subnormal)
+/// zero, or large enough that its half is still a normal number (|x| >= 2^-1021), so halving is exact
 fn normal_or_zero(x: f64) -> bool {
-    x == 0.0 || x.abs() >= f64::MIN_POSITIVE
+    x == 0.0 || x.abs() >= 4.450147717014403e-308
 }
 
 /// p with at most 13 significant bits in {0} U [2^-12, 1] (contains every m/4096)
@@ -58,8 +58,8 @@ fn small_stream_on<I: Inp, const N: usize>(i: &mut I, p: f64, lattice: bool) {
         if all_normal {
             vassert!(i, lo <= r && r <= hi, "C15:quantile-within-data-range");
         } else {
-            // averaging two subnormal order statistics rounds each half to even first: see known_findings.json
-            vassert!(i, lo <= r && r <= hi, "C15:quantile-within-data-range-subnormal-observations");
+            // halving an observation below 2^-1021 rounds (to even) before the sum is formed: see known_findings.json
+            vassert!(i, lo <= r && r <= hi, "C15:quantile-within-data-range-tiny-observations");
         }
         vassert!(i, q.estimate() == r, "C15:estimate-is-quantile");
     }
